@@ -474,6 +474,20 @@ def own_stream(tier, rng):
                 yield case_line('c15.ndt.witht', f, n, x)
     for t in ([], [0], [I64_MIN], [I64_MAX], [1, 2], [I64_MIN, I64_MAX], [I64_MAX, I64_MIN], [0, 0]):
         yield case_line('c15.mlt', t)
+    # Display / Debug of the error types (every value of every type; out-of-domain selectors are BADARGS on both sides),
+    # Debug of IsoWeek (range ends, the 0 / 9999 / 10000 / -1 year boundaries, ISO years that differ from the calendar year)
+    # and of WeekdaySet (all 128 sets)
+    for w in range(-1, 11):
+        for v in range(-1, 9):
+            yield case_line('c15.errtext', w, v)
+    for d in DATES_X + [[0, 2], [9999, 362], [9999, 363], [10000, 2], [-1, 362], [2020, 366], [2021, 1], [2021, 3], [2021, 4], [2018, 365],
+                        [2019, 1], [MINY, 3], [MAXY, 363], [999, 1], [1000, 1], [99, 200], [-10000, 1], [100000, 100]]:
+        yield case_line('c15.isoweek.dbg', d)
+    for _ in range(300 if tier == 'quick' else 5000):
+        y = rng.choice([rng.randint(MINY, MAXY), rng.randint(-20, 10020), rng.randint(1900, 2100)])
+        yield case_line('c15.isoweek.dbg', [y, rng.choice([1, 2, 3, 4, 5, 6, 7, 359, 360, 361, 362, 363, 364, 365, rng.randint(1, 365)])])
+    for bits in range(-2, 131):
+        yield case_line('c15.wdset.dbg', bits)
     # named inputs (DESIGN.md section 8, task list): all must return by value
     yield case_line('d.isoywd', I32_MIN, 1, 0)
     yield case_line('d.isoywd', I32_MAX, 53, 6)
